@@ -10,7 +10,8 @@ ASSUMPTIONS = [
     'files are produced by the real IpmWriter on a RopeFile from symbolic messages (few, long records: lengths symbolic so that files span 1..9 blocks)',
     'for unblocked files the two bytes at offsets 1012-1013 are whatever the writer put there; opaque content there is read through the peek table',
 ]
-BIG = [2, 48, 54, 72, 111, 127]      # variable-length elements that make long records (up to ~5000 bytes)
+BIG = [2, 48, 54, 72, 111, 127]
+MTIS = ['1240', '1442', '1644', '9876', '5039']     # every decimal digit occurs in some first MTI      # variable-length elements that make long records (up to ~5000 bytes)
 
 
 def _funcs():
@@ -18,15 +19,16 @@ def _funcs():
     return [m.ipm_info, m.block_1014_check, m.bitmap_check, m.encoding_check, m.IpmWriter.write, m.VbsWriter.close, m.Block1014.write]
 
 
-def writer_file(nrec, enc, blocked, bits_for):
+def writer_file(nrec, enc, blocked, bits_for, mtis=('1240',)):
     def h():
         core.FUEL.set(30)
         m = M().mciipm
         f = RopeFile()
         w = m.IpmWriter(f, encoding=enc, blocked=blocked)
         wit = []
+        mti0 = choose('mti', list(mtis))
         for i in range(nrec):
-            msg, elems = build_message(bits_for(i), mti='1240')
+            msg, elems = build_message(bits_for(i), mti=mti0 if i == 0 else '1240', tag='_r%d' % i)
             # elements get distinct source names per record
             for e in elems:
                 pass
@@ -124,6 +126,10 @@ def obligations(tier):
             elif enc == 'latin_1':
                 obs.append(Ob('writer/2rec/' + tag, writer_file(2, enc, blocked, lambda i: [2, 72] if i else [48, 127]), 600,
                               'two records (elements 48,127 / 2,72), every admissible length, file 1..4 blocks', _funcs))
+    for enc in CODECS:
+        for blocked in (True, False):
+            obs.append(Ob('writer/mti-family/%s/%s' % (enc, 'blocked' if blocked else 'unblocked'), writer_file(1, enc, blocked, lambda i: [2, 72], MTIS), 300,
+                          'first MTI from %s (every decimal digit occurs), one record with elements 2 and 72 of every length' % MTIS, _funcs))
     if not q:
         obs.append(Ob('writer/3rec/latin_1/blocked', writer_file(3, 'latin_1', True, lambda i: [[2, 127], [54, 72], [111, 3]][i]), 900, 'three records', _funcs))
     obs.append(Ob('invalid/short', invalid_short(), 60, 'opaque input of length 0..40', _funcs))
